@@ -344,6 +344,48 @@ def check_override(spec, res):
                                       f"({lab})", {"steps": spec['steps']})
             return
     res['nontrivial'].append(['override', spec['steps'], spec['every']])
+    tk = spec['tkey']
+    fresh = lambda: {k: list(v) for k, v in data.items()}
+    # ---- the same custom estimator NAME with another function in a later call
+    fA = lambda a: float(np.max(a))
+    fB = lambda a: float(np.min(a) - 7.0)
+    with common.Quiet():
+        T1 = atime.over_time(fresh(), fd, vars=['gdet'], estimates=[{'myE': fA}], verbose=False, **kw)
+        T2 = atime.over_time(T1, fd, vars=['Ktrace'], estimates=[{'myE': fB}], verbose=False, **kw)
+    res['observations'] += 1
+    want = [fB(np.asarray(a)) for a in T2['Ktrace']]
+    if 'Ktrace_myE' not in T2 or not np.allclose(np.asarray(T2['Ktrace_myE'], float), want, rtol=1e-13, atol=0):
+        common.add_violation(res, "estimate column wrong (custom estimator passed under a name used before)", {})
+        return
+    # ---- an input given as one number per step (a homogeneous lapse)
+    if 'gammadown3' in data:
+        d2 = fresh()
+        d2['alpha'] = [1.3 + 0.1 * j for j in range(len(d2[tk]))]
+        with common.Quiet():
+            T3 = atime.over_time(d2, fd, vars=['gdet', 'gammadet'], verbose=False, **kw)
+        res['observations'] += 1
+        al = np.asarray(T3['alpha'], float)
+        ok = all(np.allclose(np.asarray(T3['gdet'][j]), -al[j] ** 2 * np.asarray(T3['gammadet'][j]),
+                             rtol=1e-12, atol=0) for j in range(len(al)))
+        if not ok:
+            common.add_violation(res, "input given as one number per step is not used (built-in default instead)",
+                                 {"input": "alpha"})
+            return
+    # ---- two rows with the same temporal value (a run and its restart glued together)
+    d3 = fresh()
+    for k in d3:
+        d3[k] = d3[k] + [d3[k][0] if k != 'alpha' else np.asarray(d3[k][0]) + 0.01]
+    with common.Quiet():
+        T4 = atime.over_time(d3, fd, vars=['Ktrace'], verbose=False, **kw)
+    res['observations'] += 1
+    n_in = len(d3[tk])
+    alphas_in = sorted(float(np.asarray(a).ravel()[0]) for a in d3['alpha'])
+    alphas_out = sorted(float(np.asarray(a).ravel()[0]) for a in T4['alpha'])
+    if len(T4[tk]) != n_in or alphas_in != alphas_out or len(T4['Ktrace']) != n_in:
+        common.add_violation(res, "rows sharing a temporal value are lost / overwrite each other",
+                             {"rows_in": n_in, "rows_out": len(T4[tk])})
+        return
+    res['nontrivial'].append(['override+', spec['steps'], spec['tkey']])
 
 
 def run_case(spec):
